@@ -43,7 +43,7 @@ var addrs = []string{"<10.0.0.1:9618>", "<10.0.0.2:9618?sock=collector>"}
 var cmds = []int{421, 60007, 9}
 
 // commands the server declares valid for a session established for cmds[i]
-var validFor = map[int][]int{421: {421, 60007}, 60007: {60007}, 9: {9, 421}}
+var validFor = map[int][]int{421: {421, 60007}, 60007: {60007}, 9: {421}}
 
 const (
 	sessDuration = 2100 // seconds
@@ -214,13 +214,15 @@ func (w *world) sidName(id string) string {
 
 func serverConfig(s *serverState) *security.SecurityConfig {
 	enc := security.SecurityRequired
+	cm := []security.CryptoMethod{security.CryptoAES}
 	if s.plain {
 		enc = security.SecurityNever
+		cm = nil // no cipher in common: sessions are stored without a key
 	}
 	return &security.SecurityConfig{
 		AuthMethods:     []security.AuthMethod{security.AuthNone},
 		Authentication:  security.SecurityOptional,
-		CryptoMethods:   []security.CryptoMethod{security.CryptoAES},
+		CryptoMethods:   cm,
 		Encryption:      enc,
 		Integrity:       security.SecurityOptional,
 		SessionDuration: sessDuration,
